@@ -230,11 +230,11 @@ def search(res, tier, seed, deep=False):
                        "two calls after np.random.seed(5) with identical arguments gave different output")
         # the public ISIMIP steps reached through apply_location do not modify the caller's series
         from ibicus.debias import ISIMIP
-        for var in ("pr", "tasskew", "hurs", "tas"):
+        for var in ("pr", "tasskew", "hurs", "tas", "rsds"):      # (rsds: steps 1 and 8 scale by the annual cycle of upper bounds)
             d = ISIMIP.from_variable(var, running_window_mode=False)
             rs = np.random.RandomState(r.randint(0, 10 ** 6))
-            lo, hi = {"pr": (0, 3e-4), "tasskew": (0, 1), "hurs": (0, 100), "tas": (260, 300)}[var]
-            mk = lambda: np.clip(lo + (hi - lo) * rs.beta(1.2, 2.5, 400), lo, hi) * (rs.rand(400) > 0.2 if var != "tas" else 1)
+            lo, hi = {"pr": (0, 3e-4), "tasskew": (0, 1), "hurs": (0, 100), "tas": (260, 300), "rsds": (20, 350)}[var]
+            mk = lambda: np.clip(lo + (hi - lo) * rs.beta(1.2, 2.5, 400), lo, hi) * (rs.rand(400) > 0.2 if var not in ("tas", "rsds") else 1)
             o, h, f = mk(), mk(), mk()
             t = R.times(400, "1981-01-01")      # whole year: the month mode needs every month present
             before = [x.tobytes() for x in (o, h, f)]
@@ -246,6 +246,40 @@ def search(res, tier, seed, deep=False):
             res.case(("isimip-steps", var))
             if before != [x.tobytes() for x in (o, h, f)]:
                 report("isimip-modified-input:" + var, dict(variable=var, seed=seed), None, "ISIMIP (steps 2/4 write in place) modified the caller's series")
+
+        # the result depends on the settings as they are at the time of the call: a window setting reassigned between two
+        # applies (apply re-derives the window objects) gives what a fresh instance with those settings gives
+        import ibicus.debias as D, scipy.stats
+        for name in ("LinearScaling", "QuantileMapping", "CDFt", "DeltaChange", "ECDFM", "QuantileDeltaMapping", "ISIMIP"):
+            kw0 = dict(running_window_mode=True, running_window_length=31, running_window_step_length=15)
+            kw1 = dict(running_window_mode=True, running_window_length=r.choice([61, 91]), running_window_step_length=31)
+            extra = {}
+            if name == "ECDFM": extra["distribution"] = scipy.stats.norm
+            if name == "QuantileDeltaMapping": extra["cdf_threshold"] = 1e-3
+            ykw0, ykw1 = {}, {}
+            if name in ("CDFt", "QuantileDeltaMapping"):
+                ykw0 = dict(running_window_over_years_of_cm_future_length=3, running_window_over_years_of_cm_future_step_length=1)
+                ykw1 = dict(running_window_over_years_of_cm_future_length=5, running_window_over_years_of_cm_future_step_length=3)
+            rs = np.random.RandomState(r.randint(0, 10 ** 6))
+            n = 1461
+            mk3 = lambda sh: (R.series(rs, n, "tas", sh))[:, None, None] + np.zeros((1, 2, 1))
+            o, h, f = mk3(0.0), mk3(1.5), mk3(3.0)
+            t = R.times(n, "1981-01-01"); tf = R.times(n, "2041-01-01")
+            try:
+                with warnings.catch_warnings():
+                    warnings.simplefilter("ignore")
+                    d = getattr(D, name).from_variable("tas", **kw0, **ykw0, **extra)
+                    run = lambda dd: (np.random.seed(6), dd.apply(o.copy(), h.copy(), f.copy(), time_obs=t, time_cm_hist=t, time_cm_future=tf, progressbar=False))[1]
+                    run(d)
+                    for k, v in list(kw1.items()) + list(ykw1.items()): setattr(d, k, v)
+                    got = run(d)
+                    ref = run(getattr(D, name).from_variable("tas", **kw1, **ykw1, **extra))
+            except Exception as ex:
+                report("exception-after-reassigning-settings:" + name, dict(debiaser=name, settings={k: str(v) for k, v in {**kw1, **ykw1}.items()}), repr(ex)[:300], "apply raised after a window setting was reassigned"); continue
+            res.case(("settings-reassigned", name))
+            if not np.array_equal(got, ref, equal_nan=True):
+                report("stale-derived-state:" + name, dict(debiaser=name, first_settings={k: str(v) for k, v in {**kw0, **ykw0}.items()}, reassigned={k: str(v) for k, v in {**kw1, **ykw1}.items()}, seed=seed),
+                       float(np.nanmax(np.abs(got - ref))), "after reassigning window settings, apply differs from a fresh instance with the same settings: the result depends on earlier state, not on the settings")
 
 def replay(w):
     return True, "re-run ./check C12 (inputs are regenerated from the recorded seed)"
